@@ -266,8 +266,17 @@ def value_scalar(kind: str) -> VF.FunctionContract:
     """emit_value(int) is the decimal text of the integer, emit_value(bool) is true / false, emit_value(None) is null,
     emit_value(str) is the string itself when needs_quotes says no and a double-quoted text otherwise (which strings need
     quotes, and that the quoted text un-escapes to the string, are the R obligations on needs_quotes and the escape chain)"""
-    p = {"int": VF.Int(), "bool": VF.Bool(), "null": VF.Const(None), "str": VF.Str()}[kind]
+    p = {"int": VF.Int(), "bool": VF.Bool(), "null": VF.Const(None), "str": VF.Str(), "float": VF.AnyVal()}[kind]
     posts = {}
+    if kind == "float":
+        # a float is written as Python's own shortest round-tripping text (str / repr of the float): no reformatting
+        return VF.FunctionContract(
+            EMITTER, "emit_value", label="#scalar-float", params={"value": p, "indent": VF.Const(0)},
+            pre=lambda a: S.is_float(a.value),
+            posts={"python-str-of-the-float": lambda a, r: S.str_eq(r, S.str_of(a.value)) if S.symbolic(a.value) else r == repr(a.value)},
+            callee_contracts={EMITTER + ":needs_quotes": _needs_quotes_contract}, raises=(),
+            replay_hints=[(lambda v=v: {"value": v, "indent": 0}) for v in (2.5e-07, 1.25e-05, 1e22, 1.5, -0.0, 1e-300, 123456789.125, 5e-324)],
+        )
     if kind == "int":
         posts["decimal-text-of-the-integer"] = lambda a, r: S.str_eq(r, S.str_of(a.value)) if S.symbolic(a.value) else r == str(a.value)
     elif kind == "bool":
